@@ -192,6 +192,9 @@ def known_findings():
 
 
 def write_evidence(prop, tier, seed, level, coverage, assumptions, wall_s, violations):
+    if os.environ.get("VERIF_NO_EVIDENCE") == "1" or repo_dir() != "/repo":
+        # sensitivity / seeded runs against scratch trees never touch the committed evidence
+        return None
     os.makedirs(EVIDENCE, exist_ok=True)
     doc = {
         "property_id": prop,
@@ -299,3 +302,35 @@ def run_engine_miri(package, sub, seed, shapes, procs, prop, label, repo=None):
         if stats:
             all_stats.append(stats)
     return all_stats, violations
+
+
+def run_allocfault(binary, prop, seed, n):
+    """write-sim's failing-allocation fault: one trace per process (a failed allocation inside the Rust-owned
+    writer legitimately ends in Rust's out-of-memory abort, which is recognised and counted, never reported)."""
+    from concurrent.futures import ThreadPoolExecutor
+
+    def one(i):
+        return i, run_capture([binary, "allocfault", "--seed", str(seed), "--run", str(i), "--prop", prop])
+    stats = {"processes": n, "aborted_cleanly_on_alloc_failure": 0, "fault_not_reached": 0, "failure_reported_without_abort": 0}
+    violations = []
+    with ThreadPoolExecutor(max_workers=NCPU) as ex:
+        for i, (rc, out, err) in ex.map(one, range(n)):
+            if rc == 0:
+                if "fired=0" in out:
+                    stats["fault_not_reached"] += 1
+                else:
+                    stats["failure_reported_without_abort"] += 1
+            elif rc in (134, -6) and "memory allocation of" in err:
+                stats["aborted_cleanly_on_alloc_failure"] += 1
+            elif rc == 1 and "VIOLATION " in out:
+                if not violations:
+                    p = save_replay("%s-allocfault-%d-%d.trace" % (prop, seed, i), (extract_block(out, "REPLAY") or "") + "# engine write-sim-allocfault\n")
+                    violations += [l.replace("replay=-", "replay=" + p) for l in out.splitlines() if l.startswith("VIOLATION ")]
+            elif rc == 2:
+                raise HarnessError("write-sim allocfault harness error: %s" % err[-1500:])
+            else:
+                if not violations:
+                    _, tr, _ = run_capture([binary, "allocfault-gen", "--seed", str(seed), "--run", str(i)])
+                    p = save_replay("%s-allocfault-crash-%d-%d.trace" % (prop, seed, i), "# write-sim trace v1\n# engine write-sim-allocfault\n# the process died (rc=%s) after an injected allocation failure; reproduce: write-sim allocfault --seed %d --run %d --prop %s\n# %s\n" % (rc, seed, i, prop, err.strip().splitlines()[0] if err.strip() else ""))
+                    violations.append("VIOLATION property=%s replay=%s oracle=CRASH-AFTER-ALLOC-FAILURE engine=write-sim-allocfault seed=%d run=%d rc=%s" % (prop, p, seed, i, rc))
+    return stats, violations
